@@ -122,8 +122,9 @@ def alphabet(radixes: tuple, rich: bool) -> list[tuple[str, Any, tuple, tuple]]:
                 blk.append_gate(ConstantUnitaryGate(UnitaryMatrix(
                     perm_matrix((lrad[1], lrad[0]), 79 + salt),
                     (lrad[1], lrad[0]))), (1, 0))
+                # the operation's parameters are not the stored ones
                 out.append(('nested', CircuitGate(blk), loc,
-                            tuple(blk.params)))
+                            tuple(x + 0.5 for x in blk.params)))
     return out
 
 
